@@ -21,7 +21,13 @@ def abs_blossom(row, ts):
 
 
 def spec_scale(row, a, b):
+    """condition scale of the blossom values: the blossom of |v| with weights |1-t|, |t|; above degree 16 the (larger, hence
+    still sound) bound max|v| (|1-a|+|a|)^(n-i) (|1-b|+|b|)^i, which costs nothing"""
     n = len(row) - 1
+    if n > 16:
+        m = max(abs(x) for x in row)
+        ga, gb = abs(1 - a) + abs(a), abs(1 - b) + abs(b)
+        return [m * ga ** (n - i) * gb ** i for i in range(n + 1)]
     return [abs_blossom(row, [a] * (n - i) + [b] * i) for i in range(n + 1)]
 
 
@@ -75,6 +81,17 @@ def main():
                 a, b = rnd.choice(PARAMS), rnd.choice(PARAMS)
                 add("specialize", rnd.choice(["specialize_curve", "Curve.specialize"]), G.int_net(rnd, dim, n + 1, 256), a, b)
                 add("specialize", "specialize_curve", G.float_net(rnd, dim, n + 1, 0), G.float_param(rnd), G.float_param(rnd))
+        # high degrees (the property has no degree bound; 32-bit binomials overflow from C(34,17), 53-bit ones from degree 57):
+        # sampled unit nets (a middle one always: it carries the largest binomial), one integer and one float net per degree
+        for n in ([33, 34, 36, 48, 57, 64] if not thorough else list(range(33, 81))):
+            ident = G.unit_nets(n + 1)
+            rows = [ident[n // 2], ident[0]] + rnd.sample(ident, 1 if not thorough else 3)
+            add("subdivide", "subdivide_nodes", rows)
+            add("subdivide", rnd.choice(["subdivide_nodes", "Curve.subdivide"]), G.int_net(rnd, 2, n + 1, 256))
+            add("subdivide", "subdivide_nodes", G.float_net(rnd, 2, n + 1, 0))
+            add("junction", "subdivide_nodes", G.float_net(rnd, 2, n + 1, 0))
+            add("specialize", "specialize_curve", rows[:1], Fr(1, 4), Fr(3, 4))
+            add("specialize", rnd.choice(["specialize_curve", "Curve.specialize"]), G.float_net(rnd, 2, n + 1, 0), G.float_param(rnd, 0.0, 1.0), G.float_param(rnd, 0.0, 1.0))
         # boundary parameters: exactly at / next to the values where "snapping" or special-casing could creep in
         BND = [Fr(2) ** -45, -Fr(2) ** -45, 1 - Fr(2) ** -45, 1 + Fr(2) ** -45, Fr(2) ** -60, 1 - Fr(2) ** -53, Fr(2) ** -30,
                Fr(1, 2) + Fr(2) ** -50]
